@@ -32,6 +32,7 @@ var Root = func() string {
 
 // Ctx is one check run.
 type Ctx struct {
+	shareN int // runs started (FairShare)
 	Prop     string
 	Tier     string
 	Seed     int64
@@ -94,6 +95,26 @@ func (c *Ctx) Share(d time.Duration) {
 		nd = c.Full
 	}
 	c.Deadline = nd
+}
+
+// FairShare returns the slice of the budget for the next of `total` runs of a
+// check: what is left of the budget (minus the part reserved for later phases,
+// 1-frac of the whole) divided by the runs not yet started. Runs that finish
+// early leave their time to the later ones.
+func (c *Ctx) FairShare(total int, frac float64) time.Duration {
+	left := total - c.shareN
+	c.shareN++
+	if left < 1 {
+		left = 1
+	}
+	if c.Full.IsZero() {
+		return 0
+	}
+	rem := time.Until(c.Full) - time.Duration((1-frac)*float64(c.Budget()))
+	if rem < 0 {
+		rem = 0
+	}
+	return rem / time.Duration(left)
 }
 
 // Unshare restores the deadline of the whole run.
